@@ -33,6 +33,13 @@ def items(tier):
     # an automatic task that belongs to a placed component
     for sp in F.double_link_specs():
         out.append((sp, {"rule": "TSLACK", "max_time": F.seq_bound(sp) + 8}))
+    # the same workflows with their links declared in the other legitimate ways (kind as a plain integer; extend_input_task_list with a list / a generator)
+    for fl in list(F.flows(3, F.KINDS4, (1, 2)))[:: (7 if tier == "quick" else 2)]:
+        if not fl["links"]:
+            continue
+        for api in ("int", "extend", "extend-gen"):
+            sp = dict(F.with_teams(fl, "POOL2"), link_api=api)
+            out.append((sp, {"rule": "TSLACK", "max_time": F.seq_bound(sp) + 8}))
     for sp in F.second_workflow_specs() + F.five_task_join_specs()[::4]:
         out.append((sp, {"rule": "TSLACK", "max_time": F.seq_bound(sp) + 8}))
     for sp in F.auto_component_specs() + F.auto_in_workplace_specs() + F.same_name_task_specs():
